@@ -80,9 +80,14 @@ func (s *Service) checkContexts(clientCtx, upstreamCtx context.Context, readDead
 	}
 }
 
-// processStreamData reads from upstream and writes to client
-func (s *Service) processStreamData(resp *http.Response, buffer []byte, state *streamState, w http.ResponseWriter, isStreaming bool, rc *http.ResponseController, rlog logger.StyledLogger) error {
+// processStreamData reads from upstream and writes to client. readDone is called as soon as the
+// read has returned: the read timeout is about a backend that stops sending, and must not keep
+// running while the chunk is being written to a client that is slow to take it.
+func (s *Service) processStreamData(resp *http.Response, buffer []byte, state *streamState, w http.ResponseWriter, isStreaming bool, rc *http.ResponseController, rlog logger.StyledLogger, readDone func()) error {
 	n, err := resp.Body.Read(buffer)
+	if readDone != nil {
+		readDone()
+	}
 	if n > 0 {
 		// Only keep last chunk when we hit EOF (for metrics extraction)
 		// OLLA-221: large allocations per s tream adds GC Pressure over time
